@@ -24,7 +24,9 @@ func init() {
 			"absence of nil dereference or blocking inside the header.Store implementation handed to the server",
 			"actual time behaviour (deadlines are checked for presence and ordering only)",
 		},
-		Run: runC10,
+		Technique: "who-may-call on the store surface, linear bound proof at the GetRange call site (per phi edge), status-code table classification with assumption pruning, must-precede for deadlines, context provenance, result-shape rules",
+		Trusted:   "go/types+go/ssa; header.Store methods honour their context; libp2p stream and serde library behaviour",
+		Run:       runC10,
 	})
 }
 
